@@ -96,7 +96,8 @@ claim('C12', 'interprocedural may-raise analysis (exception-flow over flow.py) w
 claim('C13', 'blocking-call guard rule, table exit rows, typestate "user informed" over cell summaries, must-pass-through of stop/kill on all exits',
       'Decides: no unguarded blocking read; exit rows Evt17/Evt18 exist and lead to idle; entering idle releases the transport and '
       'every ending tells the user unless the user started it; run sets the stopped flag and closes the transport on every exit; '
-      'Association.kill is reached on every exit of handle()/request_association(); its wait is bounded.',
+      'Association.kill is reached on every exit of handle()/request_association(); its wait is bounded; the ARTIM timer, queues '
+      'and stop flag are created per provider (no shared default / class-level object).',
       'Not decided: wall-clock bounds and OS socket behaviour. Each loop iteration is bounded under the assumption that sendall '
       'makes progress.', 'DESIGN.md section 3 C13')
 
